@@ -111,6 +111,16 @@ namespace ip {
 
 		if (m_queue.empty()) return;
 
+		// this completion may be stale: it was already posted when async_resolve()
+		// re-armed the timer, or the timer was left armed by cancel(). Only
+		// complete a lookup whose time has come, otherwise wait for it.
+		if (m_queue.front().completion_time > chrono::high_resolution_clock::now())
+		{
+			m_timer.expires_at(m_queue.front().completion_time);
+			m_timer.async_wait(aux::make_malloc(std::bind(&basic_resolver::on_lookup, this, _1)));
+			return;
+		}
+
 		typename queue_t::value_type v = std::move(m_queue.front());
 		m_queue.erase(m_queue.begin());
 
